@@ -9,6 +9,8 @@ import Gama.Model.MatVec
 import Gama.Model.MatInvert
 import Gama.Model.SymChol
 import Gama.Gen.DimChecks
+import Gama.Model.MatObj
+import Gama.Gen.MatMembers
 open Gama Gama.Proto Gama.MatVec
 
 namespace C15
@@ -17,10 +19,12 @@ namespace C15
 
 structure Sess (K : Type) where
   heap : MemRep.St K
-  /-- (rows, cols) of the Mat / SymMat living in a MemRep slot -/
+  /-- (rows, cols) of the SymMat living in a MemRep slot -/
   dims : Nat → Int × Int
+  /-- `row_`, `col_`, `pentry` of the Mat living in a MemRep slot (Model/MatObj.lean) -/
+  mext : Nat → MatObj.Ext
 
-def Sess.init {K : Type} : Sess K := ⟨MemRep.St.init, fun _ => (0, 0)⟩
+def Sess.init {K : Type} : Sess K := ⟨MemRep.St.init, fun _ => (0, 0), fun _ => ⟨0, 0, none⟩⟩
 
 -- MemRep slot numbering: r.* 0..7, v.* 8..15, m.* 16..23, s.* 24..31, temporaries 32, 33
 def slotBase (kind : Char) : Nat := if kind = 'r' then 0 else if kind = 'v' then 8 else if kind = 'm' then 16 else 24
@@ -44,7 +48,9 @@ def dumpSlots (s : Sess K) (kind : Char) : String :=
     match MemRep.val s.heap (base + i) with
     | none => " | -"
     | some l =>
-      let hd := if kind = 'm' ∨ kind = 's' then
+      let hd := if kind = 'm' then
+                  let e := s.mext (base + i); s!"{e.row} {e.col}"
+                else if kind = 's' then
                   let d := s.dims (base + i); s!"{d.1} {d.2}"
                 else toString l.length
       " | " ++ hd ++ (if l.isEmpty then "" else " " ++ renderAll l))
@@ -82,7 +88,72 @@ def transposeOps (s : Sess K) (id : Nat) : Option (List (MemRep.Op K) × (Int ×
     some ([.copyCtor tmp1 id, .ctor tmp2 (Int.ofNat (R * C))] ++ writes ++
           [.assign id tmp2, .dtor tmp2, .dtor tmp1], (c, r))
 
+def showMStop : MatObj.Stop → String
+  | .badRank => "throw BadRank"
+  | .singular => "throw Singular"
+  | .precondition => "bad-op"
+  | .heapFault => "heap-fault"
+
+/-- one operation of the `Mat` object-history machine (Model/MatObj.lean), with the `pentry`
+    initialisation regenerated from mat.h.  After `throw Singular` the C++ object is left partially
+    eliminated; the model keeps the state before the call (scripts re-fill the object). -/
+def runMat (s : Sess K) (op : MatObj.Op K) : Sess K × String :=
+  match MatObj.step Gen.MatMembers.pentryInit ⟨s.heap, s.mext⟩ op with
+  | .ok st => ({ s with heap := st.mem, mext := st.ext }, "ok")
+  | .error e => (s, showMStop e)
+
+/-- `m.*` lines: Mat objects live in MemRep slots 16..23 -/
+def matStep (s : Sess K) (op : String) (a : List String) : Option (Sess K × String) :=
+  let slot? (t : String) : Option Nat := match t.toNat? with
+    | some i => if i < 8 then some (16 + i) else none
+    | none => none
+  match op, a with
+  | "ctor", [i, r, c] =>
+    match slot? i, r.toNat?, c.toNat? with
+    | some id, some r, some c => some (runMat s (.ctor id r c))
+    | _, _, _ => some (s, "bad-op")
+  | "copy", [i, j] | "move", [i, j] =>          -- no move operations are generated for Mat
+    match slot? i, slot? j with
+    | some id, some src => some (runMat s (.copyCtor id src))
+    | _, _ => some (s, "bad-op")
+  | "assign", [i, j] | "massign", [i, j] =>
+    match slot? i, slot? j with
+    | some id, some src => some (runMat s (.assign id src))
+    | _, _ => some (s, "bad-op")
+  | "reset", [i, r, c] =>
+    match slot? i, r.toNat?, c.toNat? with
+    | some id, some r, some c => some (runMat s (.reset id r c))
+    | _, _, _ => some (s, "bad-op")
+  | "set", [i, r, c, x] =>
+    match slot? i, r.toNat?, c.toNat?, (Wire.parse x : Option K) with
+    | some id, some r, some c, some x => some (runMat s (.set id r c x))
+    | _, _, _, _ => some (s, "bad-op")
+  | "fill", [i, x] =>
+    match slot? i, (Wire.parse x : Option K) with
+    | some id, some x => some (runMat s (.setAll id x))
+    | _, _ => some (s, "bad-op")
+  | "scale", [i, x] =>
+    match slot? i, (Wire.parse x : Option K) with
+    | some id, some x => some (runMat s (.scale id x))
+    | _, _ => some (s, "bad-op")
+  | "transpose", [i] =>
+    match slot? i with
+    | some id => some (runMat s (.transpose id))
+    | none => some (s, "bad-op")
+  | "invert", [i, tol] =>
+    match slot? i, (Wire.parse tol : Option K) with
+    | some id, some tol => some (runMat s (.invert id tol))
+    | _, _ => some (s, "bad-op")
+  | "dtor", [i] =>
+    match slot? i with
+    | some id => some (runMat s (.dtor id))
+    | none => some (s, "bad-op")
+  | _, _ => none
+
 def objStep (s : Sess K) (kind : Char) (op : String) (a : List String) : Sess K × String :=
+  match (if kind = 'm' then matStep s op a else none) with
+  | some r => r
+  | none =>
   let base := slotBase kind
   let slot? (t : String) : Option Nat := match t.toNat? with
     | some i => if i < 8 then some (base + i) else none
